@@ -39,7 +39,15 @@ func main() {
 			}
 		}
 	}
-	out := mach.RunOn(vm, app, init, 3000, nil)
+	budget := 3000
+	if b, err := strconv.Atoi(os.Getenv("BUDGET")); err == nil {
+		budget = b
+	}
+	out := mach.RunOn(vm, app, init, budget, nil)
+	if os.Getenv("MEMAT") != "" {
+		a, _ := strconv.Atoi(os.Getenv("MEMAT"))
+		fmt.Printf("mem[%d..]=%v\n", a, out.Mem[a:a+4])
+	}
 	fmt.Printf("cycles=%d err=%q panic=%q loc=%s budget=%v ticks=%d\n", out.Cycles, out.Err, out.Panic, out.PanicLoc, out.Budget, out.Ticks)
 	for r := isa.Reg(0); r < isa.NumRegs; r++ {
 		if out.Regs[r] != 0 {
